@@ -411,7 +411,7 @@ def main(argv=None):
 
     # self-test of generators: a starved interesting class is a harness problem, not a success
     starved = []
-    if not errors and not distinct and hasattr(mod, "self_test"):
+    if not errors and not distinct and hasattr(mod, "self_test") and not os.environ.get("VERIF_PARTS"):
         try:
             starved = mod.self_test(a.tier, {k: {"evaluations": g["evaluations"], "counters": g["counters"],
                                                  "nontrivial": len(g["nontrivial"])} for k, g in agg.items()}) or []
